@@ -423,8 +423,8 @@ pub fn verify_mapping(a: &IsoGraph, b: &IsoGraph, map: &[usize], o: &IsoOpts) ->
 pub fn classify(a: &IsoGraph, b: &IsoGraph, o: &IsoOpts) -> String {
     let trials: [(&str, Relax); 8] = [
         ("coordinates", Relax { coords: true, ..Default::default() }),
-        ("phases", Relax { phases: true, ..Default::default() }),
         ("io-order", Relax { io_order: true, ..Default::default() }),
+        ("phases", Relax { phases: true, ..Default::default() }),
         ("edge-kinds", Relax { edge_kinds: true, ..Default::default() }),
         ("vertex-kinds", Relax { vertex_kinds: true, ..Default::default() }),
         ("phases+coordinates", Relax { phases: true, coords: true, ..Default::default() }),
@@ -552,11 +552,12 @@ pub fn self_test() -> Result<(), String> {
     let p = IsoGraph { verts: vec![v(1, 1000, 1001, 0., 0.)], edges: vec![], inputs: vec![], outputs: vec![] };
     let q1 = IsoGraph { verts: vec![v(1, 1, 1, 0., 0.)], edges: vec![], inputs: vec![], outputs: vec![] };
     let q2 = IsoGraph { verts: vec![v(1, 1, 2, 0., 0.)], edges: vec![], inputs: vec![], outputs: vec![] };
-    let q3 = IsoGraph { verts: vec![v(1, -1000, 1001, 0., 0.)], edges: vec![], inputs: vec![], outputs: vec![] };
+    let q3 = IsoGraph { verts: vec![v(1, -2000, 2001, 0., 0.)], edges: vec![], inputs: vec![], outputs: vec![] };
     if !matches!(find_iso(&p, &q1, &o), IsoResult::Iso(_)) || !matches!(find_iso(&p, &q2, &o), IsoResult::NotIso(_)) {
         return Err("iso: approximate phase clause".into());
     }
-    if (phase_circle_dist((1000, 1001), (-1000, 1001)) - 2.0 / 1001.0).abs() > 1e-12 || !matches!(find_iso(&p, &q3, &o), IsoResult::Iso(_)) {
+    if (phase_circle_dist((1000, 1001), (-1000, 1001)) - 2.0 / 1001.0).abs() > 1e-12 || !matches!(find_iso(&p, &q3, &o), IsoResult::Iso(_)) // 1000/1001 vs -2000/2001: distance 3001/2003001 < 1/512
+    {
         return Err("iso: circle distance".into());
     }
     Ok(())
